@@ -567,4 +567,253 @@ theorem stepOK_identifierState {T L0 w s c cs} (cc : CharClass) (hnot : T.notWor
     · exact stepOK_emit .operator (by decide) g
     · exact stepOK_emit .identifier (by decide) g
 
+/-! ### progress of `number` on an ASCII digit (standard tables) -/
+
+theorem ascii_digit_cases {c : Char} (h : '0' ≤ c ∧ c ≤ '9') :
+    c = '0' ∨ c = '1' ∨ c = '2' ∨ c = '3' ∨ c = '4' ∨ c = '5' ∨ c = '6' ∨ c = '7' ∨ c = '8' ∨ c = '9' := by
+  have h1 : 48 ≤ c.toNat := by have := Char.le_def.mp h.1; exact this
+  have h2 : c.toNat ≤ 57 := by have := Char.le_def.mp h.2; exact this
+  have hc : c = Char.ofNat c.toNat := (Char.ofNat_toNat c).symm
+  have : c.toNat = 48 ∨ c.toNat = 49 ∨ c.toNat = 50 ∨ c.toNat = 51 ∨ c.toNat = 52 ∨ c.toNat = 53 ∨
+      c.toNat = 54 ∨ c.toNat = 55 ∨ c.toNat = 56 ∨ c.toNat = 57 := by omega
+  rcases this with e | e | e | e | e | e | e | e | e | e <;> rw [hc, e] <;> decide
+
+theorem decDigits_contains {c : Char} (h : '0' ≤ c ∧ c ≤ '9') : LexTables.std.decDigits.contains c = true := by
+  rcases ascii_digit_cases h with rfl | rfl | rfl | rfl | rfl | rfl | rfl | rfl | rfl | rfl <;> decide
+
+theorem zero_contains (c : Char) : LexTables.std.zero.contains c = true ↔ c = '0' := by
+  simp [LexTables.std]
+
+/-- on an ASCII digit, prefix and digit run of `scanNumber` read at least that digit -/
+theorem ext_number_digit {L0 w s c cs} (hc : '0' ≤ c ∧ c ≤ '9') (h : Good L0 w s (c :: cs)) :
+    Ext L0 (w ++ [c]) cs
+      (acceptRun (numberDigits LexTables.std s (c :: cs)).1 (numberDigits LexTables.std s (c :: cs)).2.1
+        (numberDigits LexTables.std s (c :: cs)).2.2) := by
+  unfold numberDigits
+  by_cases hz : c = '0'
+  · have hz' : LexTables.std.zero.contains c = true := (zero_contains c).mpr hz
+    simp only [accept_cons, hz', if_true]
+    have e := ext_numberPrefix LexTables.std (good_adv h)
+    exact Ext.trans e fun w1 g1 => ext_acceptRun _ g1
+  · have hz' : ¬ (LexTables.std.zero.contains c = true) := fun hh => hz ((zero_contains c).mp hh)
+    simp only [accept_cons, hz', if_false, Bool.false_eq_true]
+    simp only [acceptRun, acceptRunP]
+    have hd : LexTables.std.decDigits.contains c = true := decDigits_contains hc
+    simp only [hd, if_true]
+    exact ext_acceptRunP _ (good_adv (good_unread h))
+
+theorem stepOK_number_digit {L0 w s c cs} (cc : CharClass) (hc : '0' ≤ c ∧ c ≤ '9')
+    (h : Good L0 w s (c :: cs)) :
+    StepOK LexTables.std L0 (w ++ [c]) cs (numberState cc LexTables.std s (c :: cs)) := by
+  unfold numberState
+  rw [scanNumber_eq]
+  have e1 := ext_number_digit hc h
+  generalize acceptRun (numberDigits LexTables.std s (c :: cs)).1 (numberDigits LexTables.std s (c :: cs)).2.1
+        (numberDigits LexTables.std s (c :: cs)).2.2 = a at *
+  obtain ⟨s1, r1⟩ := a
+  have e2 : Ext L0 (w ++ [c]) cs _ :=
+    Ext.trans e1 fun w1 g1 => ext_scanNumber_after cc LexTables.std (numberDigits LexTables.std s (c :: cs)).1 g1
+  simp only at e2 ⊢
+  generalize (match numberFraction LexTables.std (numberDigits LexTables.std s (c :: cs)).1 s1 r1 with
+      | none => (true, { s1 with width := 1 }, r1)
+      | some (s2, r2) =>
+        match numberExponent LexTables.std (numberDigits LexTables.std s (c :: cs)).1 s2 r2 with
+        | (s3, r3) =>
+          match peek s3 r3 with
+          | (p, s4, r4) =>
+            match p with
+            | some c => if cc.isAlphaNumeric c then (false, (next s4 r4).2.1, (next s4 r4).2.2) else (true, s4, r4)
+            | none => (true, s4, r4)) = res at *
+  obtain ⟨b, s5, r5⟩ := res
+  cases b with
+  | false => trivial
+  | true => exact StepOK.of_ext e2 fun w' g => stepOK_emit .number (by decide) g
+
+/-! ### one step of `root` -/
+
+/-- what one `root` step does to the input `rest` at location `L` -/
+def RootOK (cc : CharClass) (T : LexTables) (L : Loc) (rest : List Char) : Step → Prop
+  | .tok t s1 r1 => ∃ raw, raw ≠ [] ∧ rest = raw ++ r1 ∧ (∀ c, raw.head? = some c → cc.isSpace c = false) ∧
+      t.loc = L ∧ t.kind ≠ .eof ∧ TextOf T t raw ∧ Fresh s1 (advLoc L raw) r1
+  | .skip s1 r1 => ∃ c, rest = c :: r1 ∧ cc.isSpace c = true ∧ Fresh s1 (Loc.adv L c) r1
+  | .eof t => rest = [] ∧ t.kind = .eof
+  | .fail _ => True
+
+theorem RootOK.of_stepOK {cc : CharClass} {T L c cs st} (hsp : cc.isSpace c = false)
+    (h : StepOK T L [c] cs st) : RootOK cc T L (c :: cs) st := by
+  cases st with
+  | tok t s1 r1 =>
+    obtain ⟨w1, e, hl, hk, ht, hf⟩ := h
+    exact ⟨c :: w1, by simp, by simp [e], by intro x hx; simp at hx; subst hx; exact hsp, hl, hk,
+      by simpa using ht, by simpa using hf⟩
+  | fail e => trivial
+  | skip _ _ => exact h.elim
+  | eof _ => exact h.elim
+
+theorem root_spec (cc : CharClass) (s : LState) (L : Loc) (rest : List Char) (h : Fresh s L rest) :
+    RootOK cc LexTables.std L rest (root cc LexTables.std s rest) := by
+  cases rest with
+  | nil => exact ⟨rfl, rfl⟩
+  | cons c cs =>
+    have g0 : Good L [] s (c :: cs) := h.good
+    have g1 : Good L [c] (s.adv c) cs := by simpa using good_adv g0
+    unfold root
+    simp only
+    split
+    · -- white space
+      rename_i hsp
+      exact ⟨c, rfl, hsp, by simpa using fresh_ignore g1⟩
+    rename_i hsp
+    have hsp : cc.isSpace c = false := by simpa using hsp
+    refine RootOK.of_stepOK hsp ?_
+    split
+    · -- string literal
+      cases hscan : scanString LexTables.std c .normal (s.adv c) cs with
+      | error e => trivial
+      | ok o =>
+        obtain ⟨s2, r2⟩ := o
+        obtain ⟨w1, e, g2⟩ := ext_scanString LexTables.std c cs _ _ _ _ g1 hscan
+        simp only at e g2 ⊢
+        cases hun : unescape LexTables.std s2.text with
+        | error m => trivial
+        | ok str =>
+          simp only
+          exact ⟨w1, e, g2.start, by simp [mkTok],
+            Or.inr (Or.inl ⟨rfl, str, by rw [← text_of_good g2]; exact hun, rfl⟩),
+            by simpa using fresh_ignore g2⟩
+    split
+    · -- ASCII digit
+      rename_i hd
+      simp only [backup_adv]
+      exact stepOK_number_digit cc hd (good_unread g0)
+    split
+    · -- `?`, `?.`
+      cases cs with
+      | nil =>
+        simp only [peek_nil]
+        have : ¬ ((none : Option Char) = some '.') := by simp
+        simp only [this, if_false]
+        exact stepOK_emit .operator (by decide) (good_eof g1 _ rfl rfl)
+      | cons c2 cs2 =>
+        have hp := peek_cons (s.adv c) c2 cs2
+        generalize peek (s.adv c) (c2 :: cs2) = pk at hp ⊢
+        subst hp
+        simp only
+        by_cases hq : (some c2 = some '.')
+        · rw [if_pos hq]
+          exact StepOK.cons (stepOK_nilsafeState (good_unread g1))
+        · rw [if_neg hq]
+          exact stepOK_emit .operator (by decide) (good_unread g1)
+    split
+    · exact stepOK_emit .bracket (by decide) g1
+    split
+    · exact stepOK_emit .bracket (by decide) g1
+    split
+    · exact stepOK_emit .operator (by decide) g1
+    split
+    · exact StepOK.of_ext (ext_accept LexTables.std.dblSecond g1) fun w' g => stepOK_emit .operator (by decide) g
+    split
+    · simp only [backup_adv]
+      exact stepOK_dotState cc (good_unread g0)
+    split
+    · rename_i ha
+      simp only [backup_adv]
+      exact stepOK_identifierState cc rfl ha (good_unread g0)
+    · trivial
+
+/-! ### the loop -/
+
+/-- `Laid cc T L input toks`: the tokens lie in `input` (which starts at location `L`) one after the other,
+separated by runs of white space; each token's location is the position of the first character of its
+raw text; the last token is EOF -/
+inductive Laid (cc : CharClass) (T : LexTables) : Loc → List Char → List Token → Prop
+  | eof (L : Loc) (trail : List Char) (t : Token) (hws : ∀ c ∈ trail, cc.isSpace c = true)
+      (hk : t.kind = .eof) : Laid cc T L trail [t]
+  | tok (L : Loc) (gap raw rest : List Char) (t : Token) (ts : List Token)
+      (hws : ∀ c ∈ gap, cc.isSpace c = true) (hne : raw ≠ [])
+      (hfirst : ∀ c, raw.head? = some c → cc.isSpace c = false)
+      (hk : t.kind ≠ .eof) (hloc : t.loc = advLoc L gap) (htext : TextOf T t raw)
+      (htail : Laid cc T (advLoc L (gap ++ raw)) rest ts) : Laid cc T L (gap ++ raw ++ rest) (t :: ts)
+
+theorem Laid.cons_space {cc : CharClass} {T L c rest toks} (hc : cc.isSpace c = true)
+    (h : Laid cc T (Loc.adv L c) rest toks) : Laid cc T L (c :: rest) toks := by
+  generalize hL : Loc.adv L c = L' at h
+  cases h with
+  | eof _ _ t hws hk =>
+    exact Laid.eof L (c :: rest) t (by intro x hx; simp at hx; rcases hx with rfl | hx; exact hc; exact hws x hx) hk
+  | tok _ gap raw rest' t ts hws hne hfirst hk hloc htext htail =>
+    subst hL
+    have := Laid.tok (cc := cc) (T := T) L (c :: gap) raw rest' t ts
+      (by intro x hx; simp at hx; rcases hx with rfl | hx; exact hc; exact hws x hx) hne hfirst hk
+      (by simpa using hloc) htext (by simpa using htail)
+    simpa using this
+
+theorem lexLoop_laid (cc : CharClass) : ∀ (fuel : Nat) (s : LState) (L : Loc) (rest : List Char) (toks : List Token),
+    Fresh s L rest → lexLoop cc LexTables.std fuel s rest = .ok toks → Laid cc LexTables.std L rest toks := by
+  intro fuel
+  induction fuel with
+  | zero => intro s L rest toks _ h; simp [lexLoop] at h
+  | succ f ih =>
+    intro s L rest toks hf h
+    have hr := root_spec cc s L rest hf
+    simp only [lexLoop] at h
+    cases hstep : root cc LexTables.std s rest with
+    | tok t s1 r1 =>
+      rw [hstep] at h hr
+      obtain ⟨raw, hne, e, hfirst, hl, hk, ht, hfr⟩ := hr
+      simp only at h
+      cases hrec : lexLoop cc LexTables.std f s1 r1 with
+      | error e' => rw [hrec] at h; cases h
+      | ok ts =>
+        rw [hrec] at h
+        cases h
+        have := Laid.tok (cc := cc) (T := LexTables.std) L [] raw r1 t ts (by simp) hne hfirst hk (by simpa using hl) ht
+          (by simpa using ih s1 _ r1 ts hfr hrec)
+        simpa [e] using this
+    | skip s1 r1 =>
+      rw [hstep] at h hr
+      obtain ⟨c, e, hc, hfr⟩ := hr
+      subst e
+      exact Laid.cons_space hc (ih s1 _ r1 toks hfr h)
+    | eof t =>
+      rw [hstep] at h hr
+      cases h
+      obtain ⟨e, hk⟩ := hr
+      subst e
+      exact Laid.eof L [] t (by simp) hk
+    | fail e =>
+      rw [hstep] at h
+      cases h
+
+theorem fresh_init (input : List Char) : Fresh {} ⟨1, 0⟩ input := ⟨rfl, rfl, fun _ => rfl⟩
+
+theorem lexChars_laid (cc : CharClass) (input : List Char) (toks : List Token)
+    (h : lexChars cc LexTables.std input = .ok toks) : Laid cc LexTables.std ⟨1, 0⟩ input toks :=
+  lexLoop_laid cc _ _ _ _ _ (fresh_init input) h
+
+/-- every token but EOF sits at the position of the first character of its raw text -/
+theorem Laid.positions {cc : CharClass} {T L input toks} (h : Laid cc T L input toks) :
+    ∀ t ∈ toks, t.kind ≠ .eof → ∃ pre raw post, input = pre ++ raw ++ post ∧ raw ≠ [] ∧
+      (∀ c, raw.head? = some c → cc.isSpace c = false) ∧ t.loc = advLoc L pre ∧ TextOf T t raw := by
+  induction h with
+  | eof L trail t hws hk => intro t' ht' hk'; simp at ht'; subst ht'; exact absurd hk hk'
+  | tok L gap raw rest t ts hws hne hfirst hk hloc htext htail ih =>
+    intro t' ht' hk'
+    simp only [List.mem_cons] at ht'
+    rcases ht' with rfl | ht'
+    · exact ⟨gap, raw, rest, rfl, hne, hfirst, hloc, htext⟩
+    · obtain ⟨pre, raw', post, e, hne', hf', hl', htx'⟩ := ih t' ht' hk'
+      exact ⟨gap ++ raw ++ pre, raw', post, by rw [e]; simp [List.append_assoc], hne', hf',
+        by rw [hl']; simp [advLoc_append], htx'⟩
+
+/-- the last token is EOF and it is the only one -/
+theorem Laid.last_eof {cc : CharClass} {T L input toks} (h : Laid cc T L input toks) :
+    ∃ ts t, toks = ts ++ [t] ∧ t.kind = .eof ∧ ∀ x ∈ ts, x.kind ≠ .eof := by
+  induction h with
+  | eof L trail t hws hk => exact ⟨[], t, rfl, hk, by simp⟩
+  | tok L gap raw rest t ts hws hne hfirst hk hloc htext htail ih =>
+    obtain ⟨ts', t', e, hk', hall⟩ := ih
+    exact ⟨t :: ts', t', by simp [e], hk', by
+      intro x hx; simp only [List.mem_cons] at hx; rcases hx with rfl | hx; exact hk; exact hall x hx⟩
+
 end ExprModel.Lex
